@@ -351,6 +351,10 @@ type DataReader struct {
 	offset   uint32
 	blockBuf []byte
 	validEnd int64 // 已完整读取的最后一条记录的结束位置
+	// 是否允许文件末尾存在未写完的记录 (视为日志结束)
+	// 仅当前活跃文件可能在崩溃时留下未写完的尾部: 旧数据文件在切换之前已持久化,
+	// 其中不完整的 chunk 只能是数据损坏, 不能静默丢弃其后的记录
+	tolerateTornTail bool
 }
 
 func (df *DataFile) NewReader() *DataReader {
@@ -360,6 +364,11 @@ func (df *DataFile) NewReader() *DataReader {
 		offset:   0,
 		blockBuf: make([]byte, blockSize),
 	}
+}
+
+// TolerateTornTail 允许将文件末尾未写完的记录视为日志结束, 用于恢复当前活跃文件
+func (reader *DataReader) TolerateTornTail() {
+	reader.tolerateTornTail = true
 }
 
 func (reader *DataReader) NextLogRecord() (*LogRecord, *DataPos, error) {
@@ -428,7 +437,7 @@ func (reader *DataReader) next() ([]byte, *DataPos, error) {
 			// 进程崩溃或断电会在文件末尾留下未写完的记录:
 			// 位于文件最后一个 block 且超出文件末尾的 chunk, 或之后直到文件末尾全为 0 的区域
 			// (mmap 预扩展后从未写入的部分), 均视为日志结束而非数据损坏
-			if (err == ErrIncompleteChunk && off+int64(size) == fileSize) ||
+			if (err == ErrIncompleteChunk && reader.tolerateTornTail && off+int64(size) == fileSize) ||
 				reader.dataFile.zeroUntilEnd(off+int64(reader.offset), fileSize) {
 				return nil, nil, io.EOF
 			}
